@@ -1162,7 +1162,140 @@ def correspond(res, rng, tier):
   res.add_samples(samples)
   if crash_samples:
     res.cov["collection_crash_samples"] = crash_samples
+  disagreements = disagreements + callable_family(res, drv)
   return disagreements
+
+
+# ----------------------------------------------------------------------------------------------
+# K (callable family) — a function value against Callable[[A1..An], R]: the arity clause
+# ----------------------------------------------------------------------------------------------
+CALLABLE_KNOWN = {"c02-callable-kwonly-counted", "c02-callable-kwargs-unbounded"}
+
+
+def callable_sigs():
+  """every signature shape with <=2 required and <=1 optional positional parameters, <=1 required and <=1 optional
+  keyword-only parameters, with/without *args and **kwargs"""
+  return [(rp, op, va, rk, ok, kw) for rp in range(3) for op in range(2) for va in range(2)
+          for rk in range(2) for ok in range(2) for kw in range(2)]
+
+
+def callable_def(name, sig):
+  rp, op, va, rk, ok, kw = sig
+  ps = ["a%d" % i for i in range(rp)] + ["b%d=0" % i for i in range(op)]
+  if va:
+    ps.append("*va")
+  elif rk or ok:
+    ps.append("*")
+  ps += ["k%d" % i for i in range(rk)] + ["j%d=0" % i for i in range(ok)]
+  if kw:
+    ps.append("**kw")
+  return "def %s(%s): return 0" % (name, ", ".join(ps))
+
+
+def callable_module(cases):
+  """cases: [(sig, n)] -> (source, {line: (case index, site)}); sites: argument and annotated assignment"""
+  L = ["from typing import Any, Callable"]
+  where = {}
+  for n in sorted({n for _, n in cases}):
+    L.append("def g%d(c: Callable[[%s], Any]): pass" % (n, ", ".join(["int"] * n)))
+  sigs = sorted({s for s, _ in cases})
+  for s_ in sigs:
+    L.append(callable_def("f_%s" % "".join(map(str, s_)), s_))
+  for i, (s_, n) in enumerate(cases):
+    f = "f_%s" % "".join(map(str, s_))
+    L.append("g%d(%s)" % (n, f))
+    where[len(L)] = (i, "arg")
+    L.append("v%d: Callable[[%s], Any] = %s" % (i, ", ".join(["int"] * n), f))
+    where[len(L)] = (i, "asg")
+  return "\n".join(L) + "\n", where
+
+
+def callable_cpython(sig, n):
+  """the independent oracle: can CPython call the function with n positional arguments?"""
+  import inspect
+  ns = {}
+  exec(callable_def("f", sig), ns)  # pylint: disable=exec-used
+  try:
+    inspect.signature(ns["f"]).bind(*([0] * n))
+  except TypeError:
+    return False
+  try:
+    ns["f"](*([0] * n))
+  except TypeError:
+    return False
+  return True
+
+
+def callable_real(cases):
+  src, where = callable_module(cases)
+  errs = real_errors(src)
+  flagged = {}
+  stray = []
+  for name, line in errs:
+    if line in where and name in ("wrong-arg-types", "annotation-type-mismatch"):
+      flagged[where[line]] = name
+    else:
+      stray.append((name, line))
+  return src, flagged, stray
+
+
+def callable_family(res, drv):
+  """K4: 96 signature shapes x n in 0..3 x two sites.  (a) Lean arityMatch == the real matcher's verdict at both sites,
+  (b) Lean cpyAccepts == CPython really binding n positional arguments, (c) Lean Guard recomputed here.  The property
+  itself (error <=> not callable with n arguments) follows inside the guard by callable_arity_exact_partial; outside it
+  the cases where the verdicts differ are the two known findings (all of them are counted; W replays one witness each)."""
+  cases = [(s_, n) for s_ in callable_sigs() for n in range(4)]
+  out = drv.batch(["carity %d %d %d %d %d %d %d" % (s_ + (n,)) for s_, n in cases])
+  src, flagged, stray = callable_real(cases)
+  dis = []
+  stats = {"cases": len(cases), "sites": 2 * len(cases), "model_reject": 0, "inside_guard": 0,
+           "outside_guard_inexact": 0, "cpython_accepts": 0}
+  if stray:
+    dis.append({"stage": "K4-callable", "what": "unexpected errors in the callable family module", "errors": stray[:5]})
+  for i, ((s_, n), line) in enumerate(zip(cases, out)):
+    try:
+      m, c, g = [x == "1" for x in line.split()]
+    except ValueError:
+      dis.append({"stage": "K4-callable", "what": "driver answered %r" % line})
+      break
+    cp = callable_cpython(s_, n)
+    stats["model_reject"] += (not m)
+    stats["inside_guard"] += g
+    stats["cpython_accepts"] += cp
+    g_py = s_[3] == 0 and s_[4] == 0 and (not s_[5] or bool(s_[1 + 1]))
+    text = "%s against Callable[[%s], Any]" % (callable_def("f", s_), ", ".join(["int"] * n))
+    if c != cp or g != g_py:
+      dis.append({"stage": "K4-callable", "what": "Lean cpyAccepts/Guard != CPython / recomputed guard", "case": text,
+                  "lean": [c, g], "python": [cp, g_py]})
+    for site in ("arg", "asg"):
+      real_err = (i, site) in flagged
+      if real_err != (not m):
+        dis.append({"stage": "K4-callable", "what": "model!=pytype", "case": text, "site": site, "sig": list(s_), "n": n,
+                    "lean_arityMatch": m, "real_error": real_err, "cpython_accepts": cp})
+    if m != cp:
+      stats["outside_guard_inexact"] += 1
+      if g:
+        dis.append({"stage": "K4-callable", "what": "inexact inside the guard (contradicts the theorem's model)",
+                    "case": text})
+  res.cov["callable_family"] = stats
+  return dis
+
+
+def callable_oracle(cases):
+  """the property's own oracle on the real code: error at the site <=> CPython cannot call it with n arguments;
+  -> failing (sig, n, site, real_error, cpython) outside the two listed findings' region"""
+  _, flagged, _ = callable_real(cases)
+  bad = []
+  for i, (s_, n) in enumerate(cases):
+    cp = callable_cpython(s_, n)
+    for site in ("arg", "asg"):
+      err = (i, site) in flagged
+      if err == cp:
+        # listed: accepted although CPython refuses, because keyword-only parameters are counted / **kwargs lifts the bound
+        listed = (not err) and (not cp) and ((s_[3] + s_[4] > 0) or (s_[5] and not s_[2]))
+        if not listed:
+          bad.append((s_, n, site, err, cp))
+  return bad
 
 
 # ----------------------------------------------------------------------------------------------
@@ -1276,6 +1409,17 @@ def failing_sites(bases, a, v, env=None, isolate=False):
 def witnesses(res):
   known, fixed = common.known_findings("C02")
   replayed = []
+  for e in [e for e in known if e["id"] in CALLABLE_KNOWN]:
+    w = e["witness"]
+    s_, n = tuple(w["sig"]), w["n"]
+    _, flagged, _ = callable_real([(s_, n)])
+    cp = callable_cpython(s_, n)
+    still = sorted(site for site in ("arg", "asg") if ((0, site) in flagged) == cp)
+    replayed.append({"id": e["id"], "sites_failing": still, "case": callable_def("f", s_), "n": n})
+    if still:
+      res.known_lines.append("%s [%s against Callable[[%s], Any] at site(s) %s]" % (
+          e["what"], callable_def("f", s_), ", ".join(["int"] * n), ",".join(still)))
+  known = [e for e in known if e["id"] not in CALLABLE_KNOWN]
   for e in known:
     w = e["witness"]
     bases = w["bases"]
@@ -1354,6 +1498,18 @@ def shrink(bases, a, v, site, deadline):
 
 def search(res, rng, disagreements, pfail):
   budget = 120 if common.tier() == "quick" else 400
+  if any(d.get("stage") == "K4-callable" for d in disagreements) or any("callable_arity" in str(f) for f in pfail):
+    bad = callable_oracle([(s_, n) for s_ in callable_sigs() for n in range(4)])
+    if bad:
+      bad.sort(key=lambda b: (sum(b[0]), b[1]))
+      s_, n, site, err, cp = bad[0]
+      src, _ = callable_module([(s_, n)])
+      return [{"kind": "callable-arity", "program": src, "site": site, "pytype_reports_error": err,
+               "cpython_can_call_with_n_positionals": cp, "n": n, "sig": list(s_),
+               "text": "%s against Callable[[%s], Any] at site %s: pytype %s, CPython %s" % (
+                   callable_def("f", s_), ", ".join(["int"] * n), site,
+                   "reports an error" if err else "accepts", "can call it" if cp else "raises TypeError"),
+               "others": len(bad) - 1}]
   cands = []
   for d in disagreements:
     if "ann" in d and "val" in d:
@@ -1456,6 +1612,7 @@ REQUIRED[:] = [
     "match_exact_not_full", "match_exact_partial", "deviation_none_bool", "deviation_union_per_view",
     "deviation_collection", "guard_of_small", "site_uniform", "site_uniform_not_full", "site_uniform_not_full_asg",
     "site_le_ret", "singleView_of_small", "site_exact_partial",
+    "callable_arity_no_false_error", "callable_arity_exact_partial", "callable_arity_exact_not_full",
 ]
 
 
